@@ -56,6 +56,10 @@ EXPECT = {
 # the cache-layer models M2 are tied to the source text by the deep embedding: interpreter(generated syntax) = M2
 DEEP = {p: ["CacheVerif.Proofs.DeepCache", "CacheVerif.Proofs.DeepCacheOf", "CacheVerif.Proofs.DeepSource"] for p in ("C01", "C02", "C05", "C06", "C07", "C08", "C09", "C12", "C15")}
 
+# the concurrent cache model M5 is tied to the source text by: solo run of M5 = sequential step (ConcCacheSolo), and
+# steps of M5 = atomic actions the tracing interpreter records on the generated syntax (DeepTrace, both twins)
+TRACE = {p: ["CacheVerif.Proofs.ConcCacheSolo", "CacheVerif.Proofs.DeepTrace", "CacheVerif.Proofs.DeepTraceOf"] for p in ("C02", "C06", "C09", "C13")}
+
 PREMISE = {p: E("Load", "DoCompute", "Resize", "Range", "Lock") for p in ("C01", "C02", "C05", "C06", "C07", "C08", "C09", "C12", "C15")}
 
 
@@ -82,6 +86,9 @@ def common(run, modules):
     for dm in DEEP.get(run.pid, []):
         dok_, dlog_ = R.lake_build(run, [dm])
         run.oblige("lake build %s (for every state and call, the interpreter of the Go subset run on the method bodies printed from the working tree computes exactly the hand-written model's step)" % dm, dok_, dlog_)
+    for tm in TRACE.get(run.pid, []):
+        tok_, tlog_ = R.lake_build(run, [tm])
+        run.oblige("lake build %s (the concurrent cache model M5, run by one thread, computes the sequential step and takes exactly the atomic actions the tracing interpreter records on the method bodies printed from the working tree)" % tm, tok_, tlog_)
     ok, log = R.lake_build(run, modules)
     run.oblige("lake build %s (all proof obligations of the property's modules)" % " ".join(modules), ok, log)
     if ok:
